@@ -40,7 +40,7 @@ MANIFEST = {
             'assignment of isMine truth values, the reader selected for the '
             'probe equals the one selected from the untouched registry and '
             'the registry (contents and order) is unchanged by opens.'
-            ' Also: one open with an explicitly named format and one re-registration of a registered reader as history.',
+            ' Also: one open with an explicitly named format and one re-registration of a registered reader as history; the magic-number test of the netCDF-derived readers (netcdf.isMine, run whole) asked twice about one path whose content changed answers from the second content only.',
     'note': 'Trusted: z3; os.path.splitext/isfile are the real ones. The '
             'clause "auto-detected equals explicitly named for real files" '
             'is not encodable (file I/O) and not claimed.',
@@ -323,8 +323,77 @@ class OpenNamed(ReRegister):
             self._hist = None
 
 
+class MagicStateless(Obligation):
+    """the magic-number test every netCDF-derived reader inherits
+    (core/_files.py netcdf.isMine, run whole): asked twice about the same
+    path whose content changed in between, the second answer depends on the
+    second content only"""
+    mode = 'int'
+    validate_paths = 4
+    name = 'magic-number-test[same path, content replaced]'
+    bounds = {'content kinds': 'classic netCDF magic / other bytes, two '
+              'consecutive questions about one path'}
+    stubs = ('open(): a binary file whose leading bytes are those of the '
+             'symbolic content kind',)
+    KINDS = (b'CDF\x01\x00\x00\x00\x00', b'\x00\x00\x01\x30AVER')
+
+    def sym(self, ctx, h):
+        import io
+        sp = loader.TwinSpace()
+        state = {'kind': 0}
+        sp.builtins['open'] = lambda path, mode='r', *a, **k: io.BytesIO(
+            self.KINDS[state['kind']])
+        F = sp.twin('PseudoNetCDF.core._files')
+        self._space = sp
+        k1 = ctx.int('k1', 0, 1)
+        k2 = ctx.int('k2', 0, 1)
+        got = []
+        for k in (k1, k2):
+            state['kind'] = int(k)
+            got.append(bool(F.netcdf.isMine('/data/run.bin')))
+        h.claim('first-answer', z3.BoolVal(got[0]) == (k1.e == 0))
+        h.claim('second-answer-from-second-content',
+                z3.BoolVal(got[1]) == (k2.e == 0))
+        h.observe('answers', got)
+
+    def real(self, inputs):
+        import os
+        import shutil
+        import tempfile
+        import warnings
+        from verifx.symx import frac_of
+        k1 = int(frac_of(inputs.get('k1', 0))) % 2
+        k2 = int(frac_of(inputs.get('k2', 1))) % 2
+        viol = {}
+        d = tempfile.mkdtemp(prefix='verif_c15_')
+        path = os.path.join(d, 'run.bin')
+        got = []
+        try:
+            with warnings.catch_warnings():
+                warnings.simplefilter('ignore')
+                import importlib
+                import PseudoNetCDF.core._files as RF
+                RF = importlib.reload(RF) if False else RF
+                for k in (k1, k2):
+                    with open(path, 'wb') as fo:
+                        fo.write(self.KINDS[k] + b'\0' * 64)
+                    got.append(bool(RF.netcdf.isMine(path)))
+            if got[0] != (k1 == 0):
+                viol['first-answer'] = 'content kind %d answered %r' % (
+                    k1, got[0])
+            if got[1] != (k2 == 0):
+                viol['second-answer-from-second-content'] = \
+                    'contents %d then %d at one path: answers %r' % (
+                        k1, k2, got)
+        finally:
+            shutil.rmtree(d, ignore_errors=True)
+        return {'obs': {'answers': got}, 'violations': viol}
+
+    any_violation_confirms = True
+
+
 def obligations(tier):
-    obs = []
+    obs = [MagicStateless()]
     n = len(POOL)
     for p in range(n):
         obs.append(Detect(1, p))
